@@ -367,6 +367,16 @@ example : (∀ c ∈ [exAnn, { exAnn with dataType := "peak_basics" }], c.wf = t
   subst this
   decide
 
+/-- OPEN FINDING `C07-multirun-annotated-chunk-unsplittable` (the model mirrors the code): `exP` is what
+`concatenate(allow_superrun=True)` makes of the two annotated superrun chunks `exA` (run `_s`) and `exB` (run `_t`):
+`run_id = None` with non-empty sub-runs.  Although no row straddles 5, it cannot be split there — `is_superrun`
+evaluates `None.startswith("_")` (`AttributeError`, `Err.other`) — and `continuity_check` fails on it the same way.
+So "splitting a chunk at any time" fails for a chunk strax itself produced. -/
+theorem split_concat_product_counterexample :
+    concatenate [exA, exB] true = .ok exP ∧ exP.runId = none ∧ (¬ ∃ r ∈ exP.rows, r.straddles 5) ∧
+    exP.split 5 false = .error .other ∧ continuityCheck [exP] = .error .other :=
+  ⟨exP_is_product, rfl, by decide, by decide +kernel, by decide +kernel⟩
+
 /-! ## 7. `diff`, `Rechunker.get_splits`, the rechunker -/
 
 /-- `strax.diff`: one entry per adjacent pair; entry `i` is the start of row `i+1` minus the
